@@ -18,13 +18,13 @@ import (
 type c15Reader struct {
 	name     string
 	seekable bool
-	run      func(src *iofault.Source) (keys []string, terminal error, panicked *core.PanicError, outs []drive.Out)
+	run      func(src *iofault.Source, after int) (keys []string, terminal error, panicked *core.PanicError, outs []drive.Out, afterErr []error)
 }
 
-func lexRun(validate bool) func(src *iofault.Source) ([]string, error, *core.PanicError, []drive.Out) {
-	return func(src *iofault.Source) ([]string, error, *core.PanicError, []drive.Out) {
+func lexRun(validate bool) func(src *iofault.Source, after int) ([]string, error, *core.PanicError, []drive.Out, []error) {
+	return func(src *iofault.Source, after int) ([]string, error, *core.PanicError, []drive.Out, []error) {
 		// stream-only: the lexer must not depend on Seek
-		lr := drive.Lex(iofault.NoSeek{S: src}, drive.LexOpts{Validate: validate, ComputeAttCRC: true})
+		lr := drive.Lex(iofault.NoSeek{S: src}, drive.LexOpts{Validate: validate, ComputeAttCRC: true, AfterErr: after})
 		keys := make([]string, 0, len(lr.Outs))
 		for _, o := range lr.Outs {
 			if o.AttReadErr != nil || o.CRCErr != nil {
@@ -39,17 +39,17 @@ func lexRun(validate bool) func(src *iofault.Source) ([]string, error, *core.Pan
 			}
 			keys = append(keys, k)
 		}
-		return keys, lr.Err, lr.Panic, lr.Outs
+		return keys, lr.Err, lr.Panic, lr.Outs, lr.After
 	}
 }
 
-func iterRun(seek bool, opts ...mcap.ReadOpt) func(src *iofault.Source) ([]string, error, *core.PanicError, []drive.Out) {
-	return func(src *iofault.Source) ([]string, error, *core.PanicError, []drive.Out) {
+func iterRun(seek bool, opts ...mcap.ReadOpt) func(src *iofault.Source, after int) ([]string, error, *core.PanicError, []drive.Out, []error) {
+	return func(src *iofault.Source, after int) ([]string, error, *core.PanicError, []drive.Out, []error) {
 		var r io.Reader = src
 		if !seek {
 			r = iofault.NoSeek{S: src}
 		}
-		ir := drive.ReadMessages(r, drive.IterOpts{Opts: opts, MetadataCB: true})
+		ir := drive.ReadMessages(r, drive.IterOpts{Opts: opts, MetadataCB: true, AfterErr: after})
 		keys := tripleKeys(ir.Triples)
 		var term error
 		switch {
@@ -60,11 +60,11 @@ func iterRun(seek bool, opts ...mcap.ReadOpt) func(src *iofault.Source) ([]strin
 		default:
 			term = io.EOF
 		}
-		return keys, term, ir.Panic, nil
+		return keys, term, ir.Panic, nil, ir.After
 	}
 }
 
-func infoRun(src *iofault.Source) ([]string, error, *core.PanicError, []drive.Out) {
+func infoRun(src *iofault.Source, _ int) ([]string, error, *core.PanicError, []drive.Out, []error) {
 	var keys []string
 	var term error = io.EOF
 	p := core.Safe(func() {
@@ -106,18 +106,18 @@ func infoRun(src *iofault.Source) ([]string, error, *core.PanicError, []drive.Ou
 			keys = append(keys, drive.CanonMetadata(md))
 		}
 	})
-	return keys, term, p, nil
+	return keys, term, p, nil, nil
 }
 
 // lexSeekRun gives the lexer a seekable source and no attachment callback, so that attachments are
 // skipped with Seek (a different code path from the streaming skip).
-func lexSeekRun(src *iofault.Source) ([]string, error, *core.PanicError, []drive.Out) {
-	lr := drive.Lex(src, drive.LexOpts{NoAttachCB: true})
+func lexSeekRun(src *iofault.Source, after int) ([]string, error, *core.PanicError, []drive.Out, []error) {
+	lr := drive.Lex(src, drive.LexOpts{NoAttachCB: true, AfterErr: after})
 	keys := make([]string, 0, len(lr.Outs))
 	for _, o := range lr.Outs {
 		keys = append(keys, string([]byte{o.Op})+o.Canon)
 	}
-	return keys, lr.Err, lr.Panic, lr.Outs
+	return keys, lr.Err, lr.Panic, lr.Outs, lr.After
 }
 
 var c15Readers = []c15Reader{
@@ -173,7 +173,7 @@ func checkC15Job(ctx *core.Ctx, i, j, stripe int, rep *core.Report) {
 		rep.Count("file_bytes", int64(len(data)))
 	}
 	for _, rd := range c15Readers[j : j+1] {
-		base, bterm, bp, _ := rd.run(iofault.NewSource(data))
+		base, bterm, bp, _, _ := rd.run(iofault.NewSource(data), 0)
 		if bp != nil || !drive.CleanEOF(bterm) {
 			if rd.seekable && !c.K.Chunked && bp == nil {
 				// time-ordered read of an unindexed file: the documented outcome is an error; nothing to compare
@@ -191,7 +191,7 @@ func checkC15Job(ctx *core.Ctx, i, j, stripe int, rep *core.Report) {
 			src := iofault.NewSource(data)
 			src.Mode = mode
 			src.Rng = rand.New(rand.NewSource(ctx.Seed*31 + int64(i)))
-			got, term, p, _ := rd.run(src)
+			got, term, p, _, _ := rd.run(src, 0)
 			rep.Eval(1)
 			rep.Count("fragmented_reads", 1)
 			what := fmt.Sprintf("%s, %s with %s delivery", c.Describe(), rd.name, iofault.FragNames[mode])
@@ -205,12 +205,17 @@ func checkC15Job(ctx *core.Ctx, i, j, stripe int, rep *core.Report) {
 			}
 		}
 		// --- injected read error at every byte position
-		for pos := stripe; pos < len(data); pos += c15Stripes {
+		// (position len(data): every byte is delivered and the source then fails instead of reporting end-of-file)
+		for pos := stripe; pos <= len(data); pos += c15Stripes {
 			for _, sticky := range []bool{true, false} {
 				src := iofault.NewSource(data)
 				src.FaultAt = int64(pos)
 				src.Sticky = sticky
-				got, term, p, _ := rd.run(src)
+				after := 0
+				if sticky {
+					after = 2 // a source that keeps failing: asking again must not turn the failure into a clean end
+				}
+				got, term, p, _, afterErrs := rd.run(src, after)
 				rep.Eval(1)
 				what := fmt.Sprintf("%s, %s with a read error injected at byte %d of %d (sticky=%v)", c.Describe(), rd.name, pos, len(data), sticky)
 				if p != nil {
@@ -235,16 +240,27 @@ func checkC15Job(ctx *core.Ctx, i, j, stripe int, rep *core.Report) {
 					return
 				}
 				core.NotePattern(rep, "terminal_error_classes", errorClass(term))
+				for k, e := range afterErrs {
+					rep.Count("calls_after_a_permanent_source_error", 1)
+					if e == nil || drive.CleanEOF(e) {
+						out := "returned a record"
+						if e != nil {
+							out = "reported a clean end-of-file (" + e.Error() + ")"
+						}
+						rep.Violate("source-error-then-eof", fmt.Sprintf("%s: the read ended with %v after %d of %d records; call #%d after that %s although every read of the source keeps failing", what, term, len(got), len(base), k+1, out), witness)
+						return
+					}
+				}
 			}
 		}
 		// --- failing seeks
 		if rd.seekable && stripe == 0 {
 			probe := iofault.NewSource(data)
-			rd.run(probe)
+			rd.run(probe, 0)
 			for k := 0; k < probe.SeekCalls; k++ {
 				src := iofault.NewSource(data)
 				src.FailSeek = k
-				got, term, p, _ := rd.run(src)
+				got, term, p, _, _ := rd.run(src, 0)
 				rep.Eval(1)
 				rep.Count("seek_faults", 1)
 				what := fmt.Sprintf("%s, %s with seek #%d failing", c.Describe(), rd.name, k)
